@@ -650,6 +650,8 @@ def extreme_structures():
     yield 'many-instructions', '[setup]\n' + 'env A = b\n' * 3000
     yield 'long-conjunction', '[assert]\nexit-code ' + '== 0 && ' * 3000 + '== 0\n'
     yield 'dangling-operator', '[assert]\nexit-code ' + '== 0 && ' * 3000 + '\n'
+    yield 'huge-timeout-then-process', '[setup]\ntimeout = ' + '9' * 400 + '\nrun % true\n'
+    yield 'huge-timeout-then-action', '[setup]\ntimeout = ' + '9' * 400 + '\n[act]\n% true\n'
     yield 'empty-file', ''
     yield 'blank-file', '\n\n  \n'
     yield 'only-comment', '# nothing\n'
